@@ -11,7 +11,9 @@ From BV Require Import Base.Bytes Model.CodecsBase Gen.C18Tables.
 From BV Require Import Model.CodecsL2cap Model.CodecsRfcomm Model.CodecsSdp Model.CodecsUuid Model.CodecsAv.
 From BV Require Import Proofs.CodecsL2cap Proofs.CodecsRfcomm Proofs.CodecsSdp Proofs.CodecsUuid Proofs.CodecsAv.
 From BV Require Import Model.SpecCodec Model.CodecsRegistry Proofs.CodecsRegistry Gen.C18Registry.
-From BV Require Import Model.CodecsXfields Proofs.CodecsXfields Gen.C18XRegistry.
+From BV Require Import Model.CodecsXfields Proofs.CodecsXfields Gen.C18XRegistry Gen.C18AvrcpRegistry.
+From BV Require Import Model.CodecsShapes Proofs.CodecsShapes Gen.C18Shapes.
+From BV Require Import Model.CodecsA2dp Proofs.CodecsA2dp.
 Import ListNotations.
 Open Scope Z_scope.
 
@@ -345,6 +347,24 @@ Theorem C18_rtp_csrc_offset_refuted :
 Proof. exact rtp_unfixed_refuted. Qed.
 Print Assumptions C18_rtp_csrc_offset_refuted.
 
+(* ------------------------------------------------------------------ A2DP codec information *)
+Theorem C18_a2dp_sbc_value_roundtrip : forall p tail,
+  sbc_ok p = true -> sbc_parse (sbc_bytes p ++ tail) = Some p /\ bytes_ok (sbc_bytes p) = true.
+Proof. exact sbc_value_roundtrip. Qed.
+Print Assumptions C18_a2dp_sbc_value_roundtrip.
+
+(* SBC has no reserved bits: every four octets re-serialise identically *)
+Theorem C18_a2dp_sbc_bytes_roundtrip : forall d0 d1 d2 d3 tail p,
+  bytes_ok [d0; d1; d2; d3] = true -> sbc_parse (d0 :: d1 :: d2 :: d3 :: tail) = Some p ->
+  sbc_bytes p = [d0; d1; d2; d3] /\ sbc_ok p = true.
+Proof. exact sbc_bytes_roundtrip. Qed.
+Print Assumptions C18_a2dp_sbc_bytes_roundtrip.
+
+Theorem C18_a2dp_aac_value_roundtrip : forall p tail,
+  aac_ok p = true -> aac_parse (aac_bytes p ++ tail) = Some p /\ bytes_ok (aac_bytes p) = true.
+Proof. exact aac_value_roundtrip. Qed.
+Print Assumptions C18_a2dp_aac_value_roundtrip.
+
 (* ------------------------------------------------------------------ field-driven PDU classes *)
 (* Per-run obligations on the regenerated registry (Gen/C18Registry.v: every class of
    L2CAP_Control_Frame.classes, ATT_PDU.pdu_classes, SMP_Command.smp_classes, SDP_PDU.subclasses
@@ -431,6 +451,104 @@ Theorem C18_xfields_roundtrip : forall fs prev0 vs,
 Proof. exact xfields_roundtrip. Qed.
 Print Assumptions C18_xfields_roundtrip.
 
+(* ------------------------------------------------------------------ AVRCP PDUs *)
+(* Gen/C18AvrcpRegistry.v (regenerated every run): the classes of avrcp.Command / Response /
+   Event .subclasses whose fields are integers, big-endian enums, length-prefixed UTF-8 strings,
+   64-bit identifiers and array groups of those (46 of 53 today; the others are listed with the
+   reason in avrcp_untranslated and stay covered by the oracle). *)
+Theorem C18_avrcp_registry_wf : wf_xfregistry C18AvrcpRegistry.avrcp_classes = true.
+Proof. exact avrcp_registry_checked. Qed.
+Print Assumptions C18_avrcp_registry_wf.
+
+Theorem C18_avrcp_registry_keys_unique : xfkeys_unique C18AvrcpRegistry.avrcp_classes = true.
+Proof. exact avrcp_keys_checked. Qed.
+Print Assumptions C18_avrcp_registry_keys_unique.
+
+Theorem C18_avrcp_registry_complete :
+  (length C18AvrcpRegistry.avrcp_classes + length C18AvrcpRegistry.avrcp_untranslated)%nat = C18AvrcpRegistry.avrcp_registered_total.
+Proof. exact avrcp_count_checked. Qed.
+Print Assumptions C18_avrcp_registry_complete.
+
+Theorem C18_avrcp_fields_roundtrip : forall c, In c C18AvrcpRegistry.avrcp_classes ->
+  forall prev0 vs, xfin_range (xf_fields c) prev0 vs = true ->
+  exists b n, xfserialize (xf_fields c) vs = Some b /\
+              xfparse (xf_fields c) prev0 b = Some (vs, n) /\ (n <= length b)%nat.
+Proof. exact gen_avrcp_roundtrip. Qed.
+Print Assumptions C18_avrcp_fields_roundtrip.
+
+(* ------------------------------------------------------------------ the models' bit layouts are the source's *)
+(* Per-run obligation: the layouts (shifts, masks, octet indices, operand order, the RFCOMM length
+   threshold and its two forms, the RTP CSRC base and stride) extracted from the source AST of
+   InformationEnhancedControlField / SupervisoryEnhancedControlField, RFCOMM_Frame.__init__ /
+   from_bytes, RFCOMM_MCC_PN / MSC, EndPointInfo, avdtp MessageAssembler.on_pdu / Protocol.send_message,
+   avctp MessageAssembler.on_pdu and rtp MediaPacket.from_bytes by tools/translate/c18_shapes.py are
+   the layouts recorded in Model/CodecsShapes.v ... *)
+Theorem C18_layouts_match_source :
+  ertm_i_parse_src = ertm_i_parse_layout /\ ertm_i_ser_src = ertm_i_ser_layout /\ ertm_s_parse_src = ertm_s_parse_layout /\
+  ertm_s_ser_src = ertm_s_ser_layout /\ msc_parse_src = msc_parse_layout /\ msc_ser_src = msc_ser_layout /\
+  pn_parse_src = pn_parse_layout /\ pn_ser_src = pn_ser_layout /\ rfcomm_header_parse_src = rfcomm_header_parse_layout /\
+  rfcomm_header_ser_src = rfcomm_header_ser_layout /\ rfcomm_length_threshold_src = rfcomm_length_threshold_layout /\
+  rfcomm_length2_src = rfcomm_length2_layout /\ rfcomm_length1_src = rfcomm_length1_layout /\
+  epi_parse_src = epi_parse_layout /\ epi_ser_src = epi_ser_layout /\ avdtp_b0_parse_src = avdtp_b0_parse_layout /\
+  avdtp_b0_ser_src = avdtp_b0_ser_layout /\ avctp_b0_parse_src = avctp_b0_parse_layout /\
+  rtp_header_parse_src = rtp_header_parse_layout /\ rtp_csrc_base_src = rtp_csrc_base_layout /\ rtp_csrc_stride_src = rtp_csrc_stride_layout /\
+  sdp_fixed_index_src = sdp_fixed_index_layout /\ sdp_var_index_src = sdp_var_index_layout /\
+  sdp_parse_fixed_src = sdp_parse_fixed_layout /\ sdp_parse_var_src = sdp_parse_var_layout /\
+  sbc_parse_src = sbc_parse_layout /\ sbc_ser_src = sbc_ser_layout /\ aac_parse_src = aac_parse_layout /\
+  aac_ser_src = aac_ser_layout /\ aac_ser_src_outer = aac_ser_outer_layout.
+Proof. exact shapes_equal_checked. Qed.
+Print Assumptions C18_layouts_match_source.
+
+(* ... and the model functions are, for all inputs, the interpreter of those layouts *)
+Theorem C18_models_are_their_layouts : models_are_layouts_stmt.
+Proof. exact models_are_layouts. Qed.
+Print Assumptions C18_models_are_their_layouts.
+
+Theorem C18_sdp_model_is_its_tables :
+  (forall n, fixed_index n = fixed_index_tab sdp_fixed_index_layout n) /\
+  (forall ty d, var_header ty d =
+     match var_index_tab sdp_var_index_layout (lenZ d) with
+     | Some (idx, w) => Some (hdr ty idx :: (if w =? 1 then [lenZ d] else be_encode (Z.to_nat w) (lenZ d)) ++ d)
+     | None => None
+     end) /\
+  (forall ty idx d1, 0 <= idx < 8 ->
+     size_of_header ty idx d1 =
+     if idx =? 0 then Some (O, if ty =? 0 then 0 else 1)
+     else match assoc_tab sdp_parse_fixed_layout idx with
+          | Some vs => Some (O, vs)
+          | None =>
+              match assoc_tab sdp_parse_var_layout idx with
+              | Some w => if (Z.to_nat w <=? length d1)%nat
+                          then Some (Z.to_nat w, be_decode (firstn (Z.to_nat w) d1)) else None
+              | None => None
+              end
+          end).
+Proof. exact (conj sdp_fixed_index_is_table (conj sdp_var_header_is_table sdp_size_of_header_is_table)). Qed.
+Print Assumptions C18_sdp_model_is_its_tables.
+
+Theorem C18_avctp_model_is_its_layout : forall b0 r,
+  avctp_parse (b0 :: r) =
+  match eval_shape [b0] [] avctp_b0_parse_layout with
+  | [tl; pt; cr; ipid] =>
+      if (cr =? 0) && negb (ipid =? 0) then Some None
+      else if pt =? 0 then
+        match r with
+        | p0 :: p1 :: payload => Some (Some (tl, cr =? 0, negb (ipid =? 0), be_decode [p0; p1], payload))
+        | _ => None
+        end
+      else None
+  | _ => None
+  end.
+Proof. exact avctp_b0_parse_is_shape. Qed.
+Print Assumptions C18_avctp_model_is_its_layout.
+
+Theorem C18_rtp_model_is_its_layout : forall a b c d r hdr,
+  rtp_words 1 (a :: b :: c :: d :: r) = Some ([be_decode [a; b; c; d]], r) /\
+  length [a; b; c; d] = Z.to_nat rtp_csrc_stride_layout /\
+  (length hdr < Z.to_nat rtp_csrc_base_layout -> rtp_parse hdr = None)%nat.
+Proof. exact rtp_csrc_layout. Qed.
+Print Assumptions C18_rtp_model_is_its_layout.
+
 (* ------------------------------------------------------------------ non-vacuity *)
 Example C18_ex_sframe_poll :
   ecf_ok (SFrame {| s_function := 0; s_poll := 1; s_req_seq := 5; s_final := 0 |}) = true /\
@@ -481,6 +599,19 @@ Example C18_ex_xregistry :
   xin_range [XPsm; XA (UInt 2)] 0 [VInt 4097; VInt 64] = true /\
   xserialize [XPsm; XA (UInt 2)] [VInt 4097; VInt 64] = Some [1; 16; 64; 0] /\
   xin_range [XSdpElem; XA (UIntBE 2); XA Rest] 0 [VBytes [53; 3; 25; 17; 1]; VInt 10; VBytes [0]] = true.
+Proof. vm_compute. repeat split; reflexivity. Qed.
+
+Example C18_ex_avrcp :
+  xfin_range [One (XA (Enum 2 BE)); One (XStr 2); Arr [XA (Enum 4 BE)]] 0
+             [VInt 106; VBytes [97; 195; 169]; VList [VList [VInt 1]; VList [VInt 7]]] = true /\
+  xfserialize [One (XA (Enum 2 BE)); One (XStr 2); Arr [XA (Enum 4 BE)]]
+              [VInt 106; VBytes [97; 195; 169]; VList [VList [VInt 1]; VList [VInt 7]]]
+  = Some [0; 106; 0; 3; 97; 195; 169; 2; 0; 0; 0; 1; 0; 0; 0; 7].
+Proof. vm_compute. split; reflexivity. Qed.
+
+Example C18_ex_a2dp :
+  sbc_ok [2; 1; 1; 1; 1; 2; 53] = true /\ sbc_bytes [2; 1; 1; 1; 1; 2; 53] = [33; 21; 2; 53] /\
+  aac_ok [128; 16; 1; 1; 256000] = true /\ aac_parse (aac_bytes [128; 16; 1; 1; 256000]) = Some [128; 16; 1; 1; 256000].
 Proof. vm_compute. repeat split; reflexivity. Qed.
 
 Example C18_ex_rtp :
